@@ -109,6 +109,15 @@ class ReGen:
         """make sure the expression contains a literal run so that the compiler finds an atom"""
         if self.r.chance(1, 6):
             return self.lit_dot_run()
+        if self.r.chance(1, 12):
+            # two literal runs separated by a lazy range of dots with bounds beyond the chaining threshold: the engine may split the
+            # string there, the dot still has to refuse newlines without /s
+            r = self.r
+            l1 = ("cat", ("lit", r.choice(b"abc")), ("lit", r.choice(b"xyz")))
+            l2 = ("cat", ("lit", r.choice(b"019")), ("lit", r.choice(b"abc")))
+            n = r.choice([0, 1, 2, 210])
+            m = r.choice([None, None, 201, 250]) if n < 210 else r.choice([None, 230])
+            return ("cat", l1, ("cat", ("rep", ("any",), n, m, False), l2))
         lit = None
         for _ in range(self.r.range(2, 4)):
             c = ("lit", self.r.choice(b"abcxyz019"))
@@ -447,7 +456,12 @@ def sample_match(rng, sexp_tokens, maxlen=40):
             pos[0] += 2
             f = cset()
             pos[0] += 1
-            cands = [b for b in ALPHA if f(b)] or [b for b in range(256) if f(b)]
+            allc = [b for b in range(256) if f(b)]
+            cands = [b for b in ALPHA if f(b)] or allc
+            if allc and rng.chance(1, 3):
+                # the extreme members of the set: lowest, highest, high/low nibble F or 0, and the other case of letters
+                ext = [allc[0], allc[-1]] + [b for b in allc if b & 0x0F in (0, 15) or b >> 4 in (0, 15)][:8] + [b for b in allc if chr(b) in "zZaA"]
+                return bytes([rng.choice(ext)])
             return bytes([rng.choice(cands)]) if cands else b""
         if k in ("cat", "alt"):
             pos[0] += 2
